@@ -6,33 +6,39 @@ import Shentu.Gen.EVM
 -/
 open Shentu.Gen.EVM
 
+/-- the generated definitions return `Nat`, or `Option Nat` when the Go case contains a fallible primitive -/
+class Res (α : Type) where res : α → Option Nat
+instance : Res Nat := ⟨some⟩
+instance : Res (Option Nat) := ⟨id⟩
+open Res (res)
+
 def model (op : String) (w : List Nat) : Option (Option Nat) :=
   match op, w with
-  | "ADD", [a, b] => some (some (op_ADD a b))
-  | "MUL", [a, b] => some (some (op_MUL a b))
-  | "SUB", [a, b] => some (some (op_SUB a b))
-  | "DIV", [a, b] => some (op_DIV a b)
-  | "SDIV", [a, b] => some (op_SDIV a b)
-  | "MOD", [a, b] => some (op_MOD a b)
-  | "SMOD", [a, b] => some (op_SMOD a b)
-  | "ADDMOD", [a, b, c] => some (op_ADDMOD a b c)
-  | "MULMOD", [a, b, c] => some (op_MULMOD a b c)
-  | "EXP", [a, b] => some (some (op_EXP a b))
-  | "SIGNEXTEND", [a, b] => some (some (op_SIGNEXTEND a b))
-  | "LT", [a, b] => some (some (op_LT a b))
-  | "GT", [a, b] => some (some (op_GT a b))
-  | "SLT", [a, b] => some (some (op_SLT a b))
-  | "SGT", [a, b] => some (some (op_SGT a b))
-  | "EQ", [a, b] => some (some (op_EQ a b))
-  | "ISZERO", [a] => some (some (op_ISZERO a))
-  | "AND", [a, b] => some (some (op_AND a b))
-  | "OR", [a, b] => some (some (op_OR a b))
-  | "XOR", [a, b] => some (some (op_XOR a b))
-  | "NOT", [a] => some (some (op_NOT a))
-  | "BYTE", [a, b] => some (op_BYTE a b)
-  | "SHL", [a, b] => some (some (op_SHL a b))
-  | "SHR", [a, b] => some (some (op_SHR a b))
-  | "SAR", [a, b] => some (some (op_SAR a b))
+  | "ADD", [a, b] => some (res (op_ADD a b))
+  | "MUL", [a, b] => some (res (op_MUL a b))
+  | "SUB", [a, b] => some (res (op_SUB a b))
+  | "DIV", [a, b] => some (res (op_DIV a b))
+  | "SDIV", [a, b] => some (res (op_SDIV a b))
+  | "MOD", [a, b] => some (res (op_MOD a b))
+  | "SMOD", [a, b] => some (res (op_SMOD a b))
+  | "ADDMOD", [a, b, c] => some (res (op_ADDMOD a b c))
+  | "MULMOD", [a, b, c] => some (res (op_MULMOD a b c))
+  | "EXP", [a, b] => some (res (op_EXP a b))
+  | "SIGNEXTEND", [a, b] => some (res (op_SIGNEXTEND a b))
+  | "LT", [a, b] => some (res (op_LT a b))
+  | "GT", [a, b] => some (res (op_GT a b))
+  | "SLT", [a, b] => some (res (op_SLT a b))
+  | "SGT", [a, b] => some (res (op_SGT a b))
+  | "EQ", [a, b] => some (res (op_EQ a b))
+  | "ISZERO", [a] => some (res (op_ISZERO a))
+  | "AND", [a, b] => some (res (op_AND a b))
+  | "OR", [a, b] => some (res (op_OR a b))
+  | "XOR", [a, b] => some (res (op_XOR a b))
+  | "NOT", [a] => some (res (op_NOT a))
+  | "BYTE", [a, b] => some (res (op_BYTE a b))
+  | "SHL", [a, b] => some (res (op_SHL a b))
+  | "SHR", [a, b] => some (res (op_SHR a b))
+  | "SAR", [a, b] => some (res (op_SAR a b))
   | _, _ => none
 
 def main (args : List String) : IO UInt32 := do
